@@ -26,6 +26,7 @@ def run(ctx):
     ctx.each(r15c, ctx, repo, T, cg, E)
     ctx.each(r15d, ctx, repo, T)
     ctx.each(r15e, ctx, repo)
+    ctx.each(r15f, ctx, repo, E)
 
 
 def _chain_txt(e):
@@ -265,3 +266,49 @@ def r15e(ctx, repo):
             if not (len(cmp_.ops) == 1 and isinstance(cmp_.ops[0], ast.Eq)):
                 ctx.note("R15e", "%s:%d %s looks a position up with `%s`" % (f.module.relpath, st.lineno, f.qualname, ast.unparse(cmp_)))
     ctx.extra["exact_position_lookups_elsewhere"] = others
+
+
+OPT_FAMILIES = ["Adjustable", "Adjustment", "Measurable", "Constraint", "Optimization"]
+
+
+def _idempotent_default(s_, me):
+    """self.X = self.X if self.X is not None else <constant>   (None -> default; depends on nothing but the attribute itself)"""
+    if not (isinstance(s_, ast.Assign) and len(s_.targets) == 1 and isinstance(s_.targets[0], ast.Attribute) and astq.is_name(s_.targets[0].value, me)):
+        return False
+    a = ast.unparse(s_.targets[0])
+    v = s_.value
+    if isinstance(v, ast.IfExp) and ast.unparse(v.body) == a and ast.unparse(v.test) == "%s is not None" % a:
+        return not any(isinstance(x, ast.Name) and x.id not in ("np", "numpy", "inf", "math") for x in ast.walk(v.orelse))
+    return False
+
+
+def r15f(ctx, repo, E):
+    ctx.rule("R15f", "the optimisation problem object is not a scratch pad: no method of the Adjustable / Adjustment / Measurable / Constraint / Optimization families other than __init__ definitely mutates self (or the adjustables it owns), so a second optimize() with the same object starts from the instructions it is given, not from values remembered from the first; the only exception is the idempotent None -> default normalisation of an attribute")
+    fams = []
+    for name in OPT_FAMILIES:
+        ci = repo.cls("optimization", name)
+        fams += repo.subclasses(ci)
+    seen = set()
+    n = 0
+    for ci in fams:
+        for mname, fi in ci.methods.items():
+            if fi.fq in seen or mname in ("__init__", "__setstate__") or not fi.params:
+                continue
+            seen.add(fi.fq)
+            n += 1
+            me = fi.params[0]
+            muts = E.mutates(fi, me)
+            if not muts:
+                ctx.ok("R15f", fi, "%s does not mutate self" % fi.qualname)
+                continue
+            own = [s_ for s_ in own_nodes(fi.node) if isinstance(s_, (ast.Assign, ast.AugAssign))]
+            lines = {m[0] for m in muts}
+            offending = [s_ for s_ in own if s_.lineno in lines and not _idempotent_default(s_, me)]
+            via_call = [m for m in muts if not any(s_.lineno == m[0] for s_ in own)]
+            if not offending and not via_call:
+                ctx.ok("R15f", fi, "%s only normalises None to a default (idempotent)" % fi.qualname)
+                continue
+            site = offending[0] if offending else fi.node
+            why = " <- ".join(E.explain(fi, me)[:3])
+            ctx.fail("R15f", fi, site, "%s writes to the optimisation problem object (%s): the value is remembered across optimize() calls, so a later call with other instructions starts from, bounds itself around and constrains its total to the earlier call's allocation - it can end worse than the starting point it was given" % (fi.qualname, why[:200]))
+    ctx.require(n >= 30, "R15f: fewer methods of the optimisation families examined (%d) than confirmed (30)" % n)
